@@ -43,7 +43,10 @@ def run_statesync(ctx):
     for f in fails:
         ev = events[f["line"] - 1]
         for w in sorted(f["what"]):
-            ctx.violation({"kind": w, "part": "statesync", "op": ev.get("op", ev.get("event"))},
+            sig = {"kind": w, "part": "statesync", "op": ev.get("op", ev.get("event"))}
+            if ev.get("ground"):
+                sig["ground"] = ev["ground"]
+            ctx.violation(sig,
                           {"what": "%s false at %s" % (w, ev.get("event")), "event": {k: v for k, v in ev.items() if k != "diff"},
                            "diff": ev.get("diff"), "line": f["line"]})
     if not fails:
